@@ -182,6 +182,11 @@ PAT_ANY = re.compile(r"^_( if !interests\.([a-z0-9_]+))?$")
 VISIT_CALL = re.compile(r"\b(\w*visitor|\w+Visitor)(\.|::)(visit_|finish_)\w+\(")
 
 
+def nostr(text):
+    """String literals emptied (an error message may well say `length`)."""
+    return re.sub(r'"(?:[^"\\]|\\.)*"', '""', text)
+
+
 def unshadow(text):
     """Blank out the scope of every inner `let length = …` (a local that shadows the attribute's
     `length`): from the `let` to the end of the innermost enclosing block."""
@@ -218,7 +223,7 @@ def classify(body, vis):
         return "AFlag 0"
     if inner == "is_synthetic = true;":
         return "AFlag 1"
-    uses_len = re.findall(r"\blength\b", unshadow(inner))
+    uses_len = re.findall(r"\blength\b", unshadow(nostr(inner)))
     if "visit_code()" in inner:
         m = re.match(r"^if let Some\(code_visitor\) = method_visitor\.visit_code\(\)\? \{", inner)
         if not m:
@@ -229,7 +234,7 @@ def classify(body, vis):
         rest = inner[e + 1:].strip()
         if "read_code(reader, code_visitor, pool, bootstrap_methods)" not in then or "method_visitor.finish_code(code_visitor)?" not in then:
             raise Fail("Code arm: the Some branch does not call read_code / finish_code as expected: %s" % then[:200])
-        if re.search(r"\blength\b", then):
+        if re.search(r"\blength\b", nostr(then)):
             raise Fail("Code arm: the Some branch mentions `length`: %s" % then[:200])
         if rest == "":
             return "ACode false"
@@ -392,10 +397,23 @@ def generate():
     if not re.search(r"let fields_start = reader\.marker\(\)\?;", nread) or "reader.with_pos(fields_start, |reader| {" not in nread:
         raise Fail("fn read: the marker / with_pos(fields_start) second pass has changed")
 
+    # second pass over the members: either every member is read, or only when interests.fields / .methods
+    def second_pass(kind, reader_call):
+        count = "%ss_count" % kind
+        call = r"class_visitor = %s \.with_context\(\|\| anyhow!\([^;]*\)\)\?;" % reader_call
+        if re.search(r"let %s = reader\.read_u16\(\)\?; for _ in 0\.\.%s \{ %s \}" % (count, count, call), nread):
+            return False
+        m = re.search(r"let %s = reader\.read_u16\(\)\?; for _ in 0\.\.%s \{ if interests\.%ss \{ %s \} else \{ reader\.skip\(([0-9 +]+)\)\?; skip_attributes\(reader\)\?; \} \}" % (count, count, kind, call), nread)
+        if m and sum(int(x) for x in m.group(1).split("+")) == member_header:
+            return True
+        raise Fail("fn read: the second pass over the %ss has a shape the translator does not know" % kind)
+    honours_fields = second_pass("field", r"read_field\(reader, class_visitor, pool\)")
+    honours_methods = second_pass("method", r"read_method\(reader, class_visitor, pool, &bootstrap_methods\)")
+
     out.append("Definition tables : reader_tables := mkTables class_table field_table method_table code_table rc_table")
-    out.append("  %s %s %s %s %s %d." % tuple(
+    out.append("  %s %s %s %s %s %d %s %s." % tuple(
         ["true" if has_break(f) else "false" for f in ("read", "read_field", "read_method", "read_record_component")]
-        + ["true" if skip_ok else "false", member_header]))
+        + ["true" if skip_ok else "false", member_header, "true" if honours_fields else "false", "true" if honours_methods else "false"]))
     text = "\n".join(out) + "\n"
     path = os.path.join(COQ, "C17", "AttrTable.v")
     os.makedirs(os.path.dirname(path), exist_ok=True)
